@@ -98,10 +98,39 @@ def work(ctx, block):
     return res
 
 
+def cause_of(v):
+    """Which known mechanism explains an infeasible bound (used to keep known findings narrow)."""
+    if v["clause"] != "bounds-infeasible":
+        return "-"
+    uses = {}
+    for _i, ins, _o in v["user_instrs"]:
+        for x in ins:
+            uses[x] = uses.get(x, 0) + 1
+    for x in v["spec"]["tgt_ws"]:
+        uses[x] = uses.get(x, 0) + 1
+    shared_load = any(i.rsplit("_", 1)[0] in ("MLOAD", "SLOAD", "KECCAK256") and o and uses.get(o[0], 0) >= 2
+                      for i, _ins, o in v["user_instrs"])
+    if v["spec"].get("rules"):
+        return "after-rule"
+    if shared_load:
+        return "shared-load"
+    return "unexplained"
+
+
 def signature(v):
+    from .c01 import norm_rule
     ops = sorted({u[0].rsplit("_", 1)[0] for u in v["user_instrs"]})
-    rules = ",".join(sorted(set(v["spec"].get("rules", []))))[:60]
-    return "%s;%s;ops=[%s];rules=[%s]" % (v["clause"], v.get("which") or v.get("field"), ",".join(ops), rules)
+    rules = ",".join(sorted({norm_rule(r) for r in v["spec"].get("rules", [])}))[:80].replace(" ", "_")
+    return "%s;%s;cause=%s;ops=[%s];rules=[%s]" % (v["clause"], v.get("which") or v.get("field"), cause_of(v),
+                                                   ",".join(ops), rules)
+
+
+def hand_blocks():
+    P, I = B.P, B.I
+    return [[I("DUP1"), P(5), I("ADD"), I("SWAP1"), I("SLOAD")], [P(0), I("MSTORE"), P(0), I("MLOAD")],
+            [P(0), I("SSTORE"), P(0), I("SLOAD")], [I("DUP2"), I("MSTORE"), I("DUP1"), I("MLOAD")],
+            [I("DUP2"), I("MLOAD"), I("SSTORE"), I("MLOAD")], [I("DUP2"), I("SLOAD"), I("MSTORE"), I("SLOAD")],
+            [I("DUP1"), I("MLOAD"), I("DUP1"), I("ADD")], [I("DUP1"), I("SUB")], [P(0), I("AND"), I("ADD")]]
 
 
 def unit_sets(tier):
@@ -114,6 +143,7 @@ def unit_sets(tier):
         yield "mem-family(2)/2", list(families.mem_family(2))[::2], cfgs[:1]
         from .c06 import A6
         yield "tree(A6,3)", list(B.tree(A6, 3, max_need=3)), cfgs[:1]
+        yield "hand", hand_blocks(), cfgs[:2]
     else:
         yield "tree(CORE,4)", list(B.tree(B.CORE, 4)), cfgs
         yield "tree(MIXED,3)", list(B.tree(B.MIXED, 3)), cfgs
@@ -121,6 +151,7 @@ def unit_sets(tier):
         yield "mem-family(2)", list(families.mem_family(2)), cfgs[:4]
         from .c06 import A6
         yield "tree(A6,4)", list(B.tree(A6, 4, max_need=3)), cfgs[:2]
+        yield "hand", hand_blocks(), cfgs
 
 
 def main(tier, seed, only=None):
